@@ -341,6 +341,16 @@ func (o *out) cmd(depth int, inner string) {
 }
 
 func (o *out) stmt(s *Stmt, depth int) {
+	if s.ExprLay != nil {
+		saved := o.l
+		merged := *o.l
+		merged.Paren, merged.Spell, merged.Blanks, merged.R = s.ExprLay.Paren, s.ExprLay.Spell, s.ExprLay.Blanks, s.ExprLay.R
+		if merged.Stats == nil {
+			merged.Stats = s.ExprLay.Stats
+		}
+		o.l = &merged
+		defer func() { o.l = saved }()
+	}
 	l := o.l
 	switch s.K {
 	case SLine:
